@@ -108,7 +108,8 @@ type env struct {
 }
 
 func newEnv(strategy string, heads []uint32, best int) *env {
-	p, vs := pool.VerifNewPool(strategy, len(heads))
+	// through the real addConnection: `best` arrives first and so is the initial best connection
+	p, vs := pool.VerifNewPoolArriving(strategy, arrivalFirst(best, len(heads)))
 	markLineStart(p)
 	e := &env{p: p, vs: vs, strategy: strategy, ws: map[int]*waiter{},
 		runParkCh: make(chan struct{}, 4), runRelease: make(chan struct{})}
@@ -126,8 +127,8 @@ func newEnv(strategy string, heads []uint32, best int) *env {
 			}
 		})
 	}
-	if best >= 0 && best < len(vs) {
-		p.VerifSetBest(vs[best])
+	if best < 0 || best >= len(vs) {
+		p.VerifSetBest(nil) // not reachable through addConnection: a pool with members but without a best connection
 	}
 	p.VerifSetInterval(time.Hour)
 	ctx, cancel := context.WithCancel(context.Background())
@@ -1051,10 +1052,9 @@ func goAdvCancel(a []string) string {
 // Run is released. All publications must complete, Run must keep draining, the pool must stay responsive.
 func goAdvPublish(a []string) string {
 	extra := atoi(a[0])
-	p, vs := pool.VerifNewPool(pool.BestPingStrategy, 1)
+	p, vs := pool.VerifNewPoolArriving(pool.BestPingStrategy, []int{0})
 	markLineStart(p)
 	vs[0].VerifSetAlive(true)
-	p.VerifSetBest(vs[0])
 	p.VerifSetInterval(2 * time.Millisecond)
 	var armed atomic.Bool
 	armed.Store(true)
@@ -1110,7 +1110,7 @@ func goAdvRandom(a []string) string {
 	for i := range heads {
 		heads[i] = uint32(rng.Intn(3))
 	}
-	p, vs := pool.VerifNewPool([]string{pool.BestPingStrategy, pool.FirstWorkingConnection}[rng.Intn(2)], nc)
+	p, vs := pool.VerifNewPoolArriving([]string{pool.BestPingStrategy, pool.FirstWorkingConnection}[rng.Intn(2)], rng.Perm(nc))
 	markLineStart(p)
 	e := &env{p: p, vs: vs, ws: map[int]*waiter{}}
 	for i, v := range vs {
@@ -1118,7 +1118,6 @@ func goAdvRandom(a []string) string {
 		v.VerifSetRTT(time.Duration(1 + rng.Intn(3)))
 		v.VerifSetHeadSilently(heads[i])
 	}
-	p.VerifSetBest(vs[rng.Intn(nc)])
 	p.VerifSetInterval(time.Millisecond)
 	ctx, stop := context.WithCancel(context.Background())
 	e.stopRun = stop
@@ -1346,10 +1345,9 @@ func goAdvSubscribe(a []string) string {
 // drains. Then Run is let go: all publications must complete and the waiter must return success.
 func goAdvQueue(a []string) string {
 	extra, mode := atoi(a[0]), a[1]
-	p, vs := pool.VerifNewPool(pool.BestPingStrategy, 1)
+	p, vs := pool.VerifNewPoolArriving(pool.BestPingStrategy, []int{0})
 	markLineStart(p)
 	vs[0].VerifSetAlive(true)
-	p.VerifSetBest(vs[0])
 	n := p.VerifUpdatesCap() + extra
 	ctx, stop := context.WithCancel(context.Background())
 	defer stop()
